@@ -284,3 +284,22 @@ def guards(cfg, cond_pred):
         elif s1 is not None and leaves_function(cfg, s1):
             res[(bid, 0)] = t
     return res
+
+
+def pruned(cfg, assume):
+    """copy of cfg with the edges that contradict `assume` removed."""
+    raw = {"q": cfg.q, "file": cfg.file, "entry": cfg.entry, "exit": cfg.exit, "blocks": []}
+    for bid, blk in cfg.blocks.items():
+        nb = dict(blk)
+        succ = list(blk["succ"])
+        if "term" in blk and len(succ) == 2 and blk["term"]["kind"] != "SwitchStmt":
+            v = eval_cond(blk["term"].get("cond"), assume)
+            if v is True:
+                succ = [succ[0]]
+            elif v is False:
+                succ = [succ[1]]
+        nb["succ"] = succ
+        raw["blocks"].append(nb)
+    c = Cfg(raw)
+    c.sig = getattr(cfg, "sig", "")
+    return c
